@@ -288,4 +288,4 @@ class StringLiteral(BaseType):
     def _repr_literals(self):
         if self._overflow:
             return '...'
-        return ','.join(self._literals)
+        return ','.join(sorted(self._literals))
